@@ -625,7 +625,7 @@ fn mutation_kinds() -> Vec<&'static str> {
          "dirarg_input_field", "dirarg_variable", "dirarg_dup_ill_typed", "dirarg_nested_variable", "x_dup_literal_field", "dirarg_dup_literal_field_ill_typed",
          "directive_recursive_self", "directive_recursive_mutual", "directive_recursive_type", "directive_cycle_with_entry", "directive_recursive_type", "directive_recursive_type",
          // spec-invalid or odd documents outside the implemented rules: correspondence only (label x_*)
-         "x_cross_kind_dup", "x_dup_directive_def", "x_ext_without_original", "x_dup_dirarg_in_app", "x_int_out_of_range", "x_nested_type_recursion", "x_empty_object", "x_empty_union"]
+         "x_cross_kind_dup", "x_dup_directive_def", "x_builtin_redefined", "x_ext_without_original", "x_dup_dirarg_in_app", "x_int_out_of_range", "x_nested_type_recursion", "x_empty_object", "x_empty_union"]
 }
 
 /// a literal the specification rejects for `ty` (and nitrogql's rules as well)
@@ -1224,14 +1224,27 @@ fn mutate(rng: &mut Rng, m: &mut Model, kind: &str) -> Option<(String, String)> 
             m.items.insert(at, Item::T(TypeDef { name, kind: k, dirs: vec![], desc: None, is_ext: false }));
             ok("x_cross_kind_dup", "type")
         }
-        "x_dup_directive_def" => {
+        "x_dup_directive_def" | "x_builtin_redefined" => {
+            if kind == "x_builtin_redefined" {
+                // legal for nitrogql: the schema defines a directive named like a built-in one (not recorded, not reported)
+                let (name, loc) = *rng.pick(&[("deprecated", "OBJECT"), ("skip", "FIELD_DEFINITION"), ("specifiedBy", "SCALAR"), ("include", "ENUM")]);
+                let at = rng.below(m.items.len() + 1);
+                m.items.insert(at, Item::D(DirDef { name: name.into(), args: vec![Arg { name: "why".into(), ty: Ty::n("Int"), default: None, dirs: vec![], desc: None }],
+                                                     repeatable: false, locations: vec![loc.to_string()], desc: None }));
+                return ok("x_builtin_redefined", name);
+            }
+            // a directive of the schema defined a second time (451006c: DuplicatedName at the second name): identical, or with other
+            // locations / arguments / repeatable, before or after the first definition, possibly in another file
             let idx: Vec<usize> = m.items.iter().enumerate().filter_map(|(i, it)| if matches!(it, Item::D(_)) { Some(i) } else { None }).collect();
             if idx.is_empty() { return None; }
             let i = *rng.pick(&idx);
             let mut c = if let Item::D(d) = &m.items[i] { d.clone() } else { unreachable!() };
-            match rng.below(3) { 0 => { c.locations = vec!["QUERY".into()]; } 1 => { c.args.clear(); } _ => { c.repeatable = !c.repeatable; } }
-            let at = rng.below(m.items.len() + 1); m.items.insert(at, Item::D(c));
-            ok("x_dup_directive_def", "directive")
+            let how = match rng.below(4) { 0 => { c.locations = vec!["QUERY".into()]; "other_locations" } 1 => { c.args.clear(); "no_arguments" } 2 => { c.repeatable = !c.repeatable; "other_repeatable" } _ => "identical" };
+            for a in c.args.iter_mut() { a.dirs.clear(); }
+            let before = rng.chance(1, 2);
+            let at = if before { rng.below(i + 1) } else { rng.range(i + 1, m.items.len()) };
+            m.items.insert(at, Item::D(c));
+            ok("directive_defined_twice", &format!("{how}:{}", if before { "before" } else { "after" }))
         }
         "x_ext_without_original" => {
             let k = match rng.below(4) { 0 => Kind::Scalar, 1 => Kind::Enum { values: vec![EnumVal { name: "XV".into(), dirs: vec![] }] },
@@ -1342,7 +1355,10 @@ fn corpus() -> Vec<(&'static str, &'static str, &'static str)> {
         ("directive_args", "corpus:variables_inside_literals", "directive @d(x: [Int], y: In) on OBJECT\ninput In { a: Int, b: [In] }\ntype Query @d(x: [1, $v], y: {a: $w, b: [{a: $z}]}) { a: Int }\n"),
         ("unknown_type", "corpus:value_for_unknown_type", "directive @d(x: Nope, y: [Nope!]) on OBJECT\ntype Query @d(x: 1, y: [2]) { a: Int }\n"),
         ("output_in_input", "corpus:value_for_output_type", "directive @d(x: Query, u: U, i: I) on OBJECT\ninterface I { a: Int }\nunion U = Query\ntype Query @d(x: null, u: 1, i: {a: 1}) { a: Int }\n"),
-        ("x_dup_directive_def", "corpus:user_redefines_builtin_directive", "directive @deprecated(why: Int!) on OBJECT\ntype Query @deprecated(why: 1) { a: Int @deprecated(reason: \"x\") }\n"),
+        ("directive_defined_twice", "corpus:other_locations_and_arguments", "directive @d(x: Int) on FIELD_DEFINITION\ndirective @d(y: String) on OBJECT\ntype Query { a: Int @d(x: 1) }\n"),
+        ("directive_defined_twice", "corpus:other_locations_and_arguments_reversed", "directive @d(y: String) on OBJECT\ndirective @d(x: Int) on FIELD_DEFINITION\ntype Query @d(y: \"s\") { a: Int }\n"),
+        ("directive_defined_twice", "corpus:identical_three_times", "directive @d on OBJECT\ndirective @d on OBJECT\ntype Query @d { a: Int }\ndirective @d on OBJECT\n"),
+        ("x_builtin_redefined", "corpus:user_redefines_builtin_directive", "directive @deprecated(why: Int!) on OBJECT\ntype Query @deprecated(why: 1) { a: Int @deprecated(reason: \"x\") }\n"),
         ("x_cross_kind_dup", "corpus:type_named_like_builtin_scalar", "type Int { a: String }\ntype Query { a: Int, b(x: Int): Float }\n"),
         ("dup_type", "corpus:scalar_named_like_builtin_scalar", "scalar String\ntype Query { a: Int }\n"),
         ("x_multi_schema", "corpus:two_schema_definitions", "schema { query: Query }\nschema { query: Query }\ntype Query { a: Int }\n"),
